@@ -193,6 +193,22 @@ def _objects():
     O['B_qp'] = lambda g: fem.Basis(g('quad_a'), g('quadp3'))
     O['B_mor'] = lambda g: fem.Basis(g('tri_a'), g('morley'))
     O['x0'] = lambda: np.linspace(0.0, 1.0, 9)
+    # caller-owned arrays handed to constructors (connectivity NOT in ascending local order; several layouts)
+    T3 = np.array([[1, 0, 2], [2, 1, 3], [3, 1, 4], [4, 1, 0]]).T          # fan around vertex 1, mixed orientation
+    O['P2d'] = lambda: np.array([[0., 1., 1., 0., -1.], [0., 0., 1., 1.5, 0.5]])
+    O['T3_i32'] = lambda: np.ascontiguousarray(T3.astype(np.int32))
+    O['T3_i64'] = lambda: np.ascontiguousarray(T3.astype(np.int64))
+    O['T3_i32F'] = lambda: np.asfortranarray(T3.astype(np.int32))
+    O['P2q'] = lambda: np.array([[0., 1., 1., 0., 2., 2.], [0., 0., 1., 1., 0., 1.]])
+    O['T4q_i32'] = lambda: np.ascontiguousarray(np.array([[1, 2, 3, 0], [4, 5, 2, 1]], dtype=np.int32).T)
+    O['P3t'] = lambda: np.array([[0., 1., 0., 0., 1.], [0., 0., 1., 0., 1.], [0., 0., 0., 1., 1.]])
+    O['T4t_i32'] = lambda: np.ascontiguousarray(np.array([[3, 1, 2, 0], [4, 3, 2, 1]], dtype=np.int32).T)
+    O['P1d'] = lambda: np.array([[0., 2., 1., 3.]])
+    O['T2_i32'] = lambda: np.ascontiguousarray(np.array([[2, 0], [1, 2], [3, 1]], dtype=np.int32).T)
+    O['tri_o'] = lambda: fem.MeshTri().refined(1).oriented()                # library-made, int32, not ascending
+    O['yvec'] = lambda: np.linspace(-1.0, 2.0, 25)
+    O['B_vec'] = lambda: fem.Basis(fem.MeshTri().refined(1), fem.ElementVector(fem.ElementTriP1()))
+    O['hermite'] = lambda: fem.ElementLineHermite()
     O['form_mass'] = lambda: fem.BilinearForm(lambda u, v, w: u * v)
     O['B_l2'] = lambda: fem.Basis(fem.MeshLine(np.linspace(0, 1, 4)), fem.ElementLineP2())
     O['B_q2'] = lambda: fem.Basis(fem.MeshQuad().refined(1), fem.ElementQuad2())
@@ -407,6 +423,54 @@ def _ops():
         ('solve_cond_x', ['A1', 'x0'], lambda A, x: su.solve(*su.condense(A, ones(A), x=x, D=D))),
         ('solve_enf_x', ['A1', 'x0'], lambda A, x: su.solve(*su.enforce(A, ones(A), x=x, D=D))),
         ('solve_cond_keep', ['A1', 'x0'], lambda A, x: _solve_twice(su, A, x, D)),
+    ]
+    from skfem.models.elasticity import linear_elasticity
+    from skfem.helpers import ddot, grad, sym_grad, transpose, dot
+    yv = lambda b: np.sin(np.arange(b.N, dtype=float))
+    # constructors and conversions on CALLER-OWNED arrays / library-made operands (the arrays must stay as they were)
+    G['arrays'] = [
+        ('MeshTri', ['P2d', 'T3_i32'], lambda p, t: _mesh_numbers(fem.MeshTri(p, t))),
+        ('MeshTri', ['P2d', 'T3_i64'], lambda p, t: _mesh_numbers(fem.MeshTri(p, t))),
+        ('MeshTri', ['P2d', 'T3_i32F'], lambda p, t: _mesh_numbers(fem.MeshTri(p, t))),
+        ('MeshTri_tables', ['P2d', 'T3_i32'], lambda p, t: [fem.MeshTri(p, t).facets, fem.MeshTri(p, t).t]),
+        ('MeshQuad', ['P2q', 'T4q_i32'], lambda p, t: [fem.MeshQuad(p, t).t, fem.MeshQuad(p, t).facets, fem.MeshQuad(p, t).f2t]),
+        ('MeshTet', ['P3t', 'T4t_i32'], lambda p, t: [fem.MeshTet(p, t).t, fem.MeshTet(p, t).facets, fem.MeshTet(p, t).edges]),
+        ('MeshLine', ['P1d', 'T2_i32'], lambda p, t: [fem.MeshLine(p, t).t, fem.MeshLine(p, t).p]),
+        ('from_mesh', ['tri_o'], lambda m: _mesh_numbers(fem.MeshTri1.from_mesh(m))),
+        ('tri2_from', ['tri_o'], lambda m: [fem.MeshTri2.from_mesh(m).t, fem.MeshTri2.from_mesh(m).p]),
+        ('refined_o', ['tri_o'], lambda m: _mesh_numbers(m.refined())),
+        ('adapt_o', ['tri_o'], lambda m: _mesh_numbers(m.refined(np.array([0, 3])))),
+        ('use_o', ['tri_o'], lambda m: [m.t, m.facets, m.t2f, mass.assemble(fem.Basis(m, fem.ElementTriP2()))]),
+        ('asm_kw', ['B_p2', 'yvec'], lambda b, y: fem.BilinearForm(lambda u, v, w: u * v * w['c']).assemble(b, c=y)),
+        ('lin_kw', ['B_p2', 'yvec'], lambda b, y: fem.LinearForm(lambda v, w: v * w['c'] ** 2).assemble(b, c=y)),
+        ('interp_y', ['B_p2', 'yvec'], lambda b, y: [b.interpolate(y).value, b.interpolate(y).grad]),
+        ('interpolator_y', ['B_p2', 'yvec', 'Q1'], lambda b, y, x: b.interpolator(y)(x)),
+    ]
+    # integrand helpers on ONE vector-valued basis (a helper that writes into the arrays stored in the basis shows in
+    # every later result that depends on the part it destroyed)
+    G['vec'] = [
+        ('elasticity', ['B_vec'], lambda b: linear_elasticity(1.0, 2.0).assemble(b)),
+        ('symgrad', ['B_vec'], lambda b: fem.BilinearForm(lambda u, v, w: ddot(sym_grad(u), sym_grad(v))).assemble(b)),
+        ('skew', ['B_vec'], lambda b: fem.BilinearForm(
+            lambda u, v, w: (u.grad[0, 1] - u.grad[1, 0]) * (v.grad[0, 1] - v.grad[1, 0])).assemble(b)),
+        ('gradgrad', ['B_vec'], lambda b: fem.BilinearForm(lambda u, v, w: ddot(grad(u), grad(v))).assemble(b)),
+        ('transposed', ['B_vec'], lambda b: fem.BilinearForm(lambda u, v, w: ddot(transpose(grad(u)), grad(v))).assemble(b)),
+        ('interp_grad', ['B_vec'], lambda b: b.interpolate(yv(b)).grad),
+        ('dotmass', ['B_vec'], lambda b: fem.BilinearForm(lambda u, v, w: dot(u, v)).assemble(b)),
+        ('functional', ['B_vec'], lambda b: fem.Functional(
+            lambda w: w['u'].grad[0, 1] - w['u'].grad[1, 0]).assemble(b, u=b.interpolate(yv(b)))),
+    ]
+    # one globally-defined element object on a mesh and on MOVED copies of it (same connectivity, other geometry)
+    for ename in ('morley', 'argyris'):
+        G['elem'] += [
+            ('mass_scaled', ['tri_a', ename], lambda m, e: mass_on(m.scaled((2., 0.5)), e)),
+            ('mass_translated', ['tri_a', ename], lambda m, e: mass_on(m.translated((1., -1.)), e)),
+            ('mass_morphed', ['tri_a', ename], lambda m, e: mass_on(m.morphed(lambda p: p[0] + .25 * p[1], lambda p: 2. * p[1]), e)),
+        ]
+    G['elem'] += [
+        ('mass', ['line_a', 'hermite'], mass_on),
+        ('mass_scaled', ['line_a', 'hermite'], lambda m, e: mass_on(m.scaled(3.), e)),
+        ('mass', ['line_b', 'hermite'], mass_on),
     ]
     return G
 
